@@ -376,7 +376,26 @@ func runC15(c *core.Ctx) {
 				os.RemoveAll(bdir)
 			}
 		}
-		if everything {
+		if everything && len(afterSegs) == 0 && cy%2 == 0 {
+			// instead: two idle sessions. The first Open creates an empty segment, its Close writes that segment's side file,
+			// the second Open finds the segment empty; the following cycles fill it and compact it - side file included
+			// (seeded/R8-C15-m1).
+			for i := 0; i < 2 && !violated; i++ {
+				if err := db.Close(); err != nil {
+					fail("close-error-after-compaction", fmt.Sprintf("cycle %d: Close of an emptied database failed: %v", cy, err))
+					return
+				}
+				db, err = env.Open(cfg)
+				if err != nil {
+					fail("reopen-error", err.Error())
+					return
+				}
+				c.Stat("restarts", 1)
+				c.Eval(1)
+			}
+			c.Stat("idle_sessions_on_empty_segment", 1)
+			checkFiles(fmt.Sprintf("cycle %d after two idle sessions", cy))
+		} else if everything {
 			// writes right after everything was removed
 			put(keys[0], 10)
 			del(keys[0])
